@@ -267,6 +267,26 @@ def import_rules(chk, fx):
                     'of the same module gets no edge, is not ordered after it and does not join it (its diagnostics then depend on the schedule)' % X, BP, inside[0]['l'])
         else:
             chk.ok('C20-R8', X, sample='inc_ref(&from_path, %s) outside the seen-test' % X)
+    # --- R9: "joined" means "its context is in the cache"
+    chk.rule('C20-R9', 'a module is marked as joined only after its analysis has registered it in a module cache: every `promises.mark_as_joined(P)` of build_package.rs is preceded, in '
+                       'the same function, by the registration (`cache.register(..)`, a call of the `run` closure that registers, or build_decl_mod) — a waiter that sees "joined" reads '
+                       'the cache at once')
+    njoin = 0
+    for f in fx.fns(BP):
+        nm = T.norm(f['path'])
+        marks = [c for c in T.calls(f['body']) if c.get('k') == 'MCall' and c['n'] == 'mark_as_joined']
+        for mk in marks:
+            njoin += 1
+            before = [c for c in T.calls(f['body']) if c.get('l', 0) <= mk.get('l', 0) and c is not mk and (
+                (c.get('k') == 'MCall' and c['n'] == 'register' and 'cache' in T.show(T.peel(c['r']))) or
+                (c.get('k') == 'Call' and T.peel(c.get('f') or {}).get('k') == 'Local' and T.peel(c['f']).get('n') == 'run') or
+                (c.get('k') == 'Call' and (T.show(c)[:4] == 'run(')))]
+            if before:
+                chk.ok('C20-R9', (nm, mk.get('l')), sample='%s: registered before mark_as_joined' % nm)
+            else:
+                chk.bad('C20-R9', nm, 'joined-before-registered', '%s marks a module as joined without having registered it in the module cache: a thread waiting for that module goes on and '
+                        'finds no such module (a cyclic pair a <-> b plus a third importer of b fails with "Module(b.er) object has no attribute x" in 5 of 8 runs)' % nm, BP, mk.get('l'))
+    chk.floor('mark_as_joined sites in build_package.rs', njoin, 3)
     acyclic_rules(chk, fx, 'C20-R5')
     # --- R7: the import scan does not stop at the first error
     for fname in ('GenericPackageBuilder::resolve', 'GenericPackageBuilder::check_import'):
